@@ -148,6 +148,22 @@ def mk_history(rng):
             s = io.StringIO()
             fmt = rng.choice(["export", "brackets"])
             getattr(treeoutput, fmt)(clone_sid(t), s)
+            if rng.random() < 0.5:
+                # the SAME file read twice (or three times) in one process under DIFFERENT reader options: labels that
+                # contain both separators, gf_split with one separator and then with the other (added after C18-y19: a
+                # per-label memo in the export reader keyed by the raw label alone)
+                for n_ in trees.preorder(t):
+                    if n_.children and n_.parent is not None:
+                        n_.data['label'] = rng.choice(["NP-SB", "PP-LOC#MO", "VP#OC", "S", "NP"])
+                s = io.StringIO()
+                getattr(treeoutput, fmt)(clone_sid(t), s)
+                seps = rng.sample(["-", "#", None], rng.randint(2, 3))
+                for sep in seps:
+                    o = {} if sep is None else {"gf_split": True, "gf_separator": sep}
+                    if sep == "-" and rng.random() < 0.5:
+                        del o["gf_separator"]          # the default separator, not spelled out
+                    calls.append({"op": "read", "fmt": fmt, "text": s.getvalue(), "opts": o})
+                continue
             calls.append({"op": "read", "fmt": fmt, "text": s.getvalue() * rng.randint(1, 2), "opts": {}})
         elif r < 0.75:
             t = small_tree(rng, disc=False)
